@@ -259,7 +259,9 @@ class MultipartDecoder:
         for line in data.splitlines():
             line = line.strip()
             if line != b"":
-                name, value = safe_decode(line, self.charset).split(":", 1)
+                name, sep, value = safe_decode(line, self.charset).partition(":")
+                if not sep:
+                    raise MalformedMultipart("Malformed part header")
                 headers.append((name.strip(), value.strip()))
         return Headers(headers)
 
